@@ -75,21 +75,32 @@ class Rig:
         self.is_random = len(ds) >= 16
 
 
-def stacked_bundle(b):
-    """The same configuration behind a harness-side `Wrapper` subclass whose reset/step differ observably from
-    the base environment's (every numeric observation leaf + 1; masks untouched).  'The wrapped environment' of the
-    property is then this wrapper, not the innermost environment."""
+def stacked_bundle(b, kind=True):
+    """The same configuration behind another `Wrapper`; 'the wrapped environment' of the property is then this
+    wrapper, not the innermost environment.  Kinds:
+    True / "tag"  harness-side Wrapper subclass whose reset/step differ observably from the base environment's
+                  (every numeric observation leaf + 1; masks untouched);
+    "zeromid"     the same, and every MID timestep carries an all-zero discount (a "life lost" style environment:
+                  the discount says nothing about whether the step is LAST, which is all the wrapper may look at);
+    "m2smin"      jumanji's own MultiToSingleWrapper with discount_aggregator=min over a multi-agent environment
+                  (Connector: the aggregated discount is 0 on MID steps once one agent has finished)."""
     import jax
     import jax.numpy as jnp
 
-    from jumanji.wrappers import Wrapper
+    from jumanji.wrappers import MultiToSingleWrapper, Wrapper
+
+    kind = "tag" if kind is True else kind
 
     class Tagged(Wrapper):
-        @staticmethod
-        def _tag(ts):
+        zero_mid = kind == "zeromid"
+
+        def _tag(self, ts):
             obs = jax.tree_util.tree_map(
                 lambda x: x + 1 if (jnp.issubdtype(x.dtype, jnp.number) and x.dtype != jnp.bool_) else x, ts.observation)
-            return ts.replace(observation=obs)
+            ts = ts.replace(observation=obs)
+            if self.zero_mid:
+                ts = ts.replace(discount=jnp.where(ts.mid(), jnp.zeros_like(ts.discount), ts.discount))
+            return ts
 
         def reset(self, key):
             s, ts = self._env.reset(key)
@@ -99,9 +110,13 @@ def stacked_bundle(b):
             s, ts = self._env.step(state, action)
             return s, self._tag(ts)
 
-    key = (b.name, b.entry, "stacked")
+    key = (b.name, b.entry, "stacked", kind)
     if key not in envs._BUNDLES:
-        envs._BUNDLES[key] = envs.Bundle(b.name, b.entry, env=Tagged(b.env))
+        if kind == "m2smin":
+            env = MultiToSingleWrapper(b.env, reward_aggregator=jnp.sum, discount_aggregator=jnp.min)
+        else:
+            env = Tagged(b.env)
+        envs._BUNDLES[key] = envs.Bundle(b.name, b.entry, env=env)
     return envs._BUNDLES[key]
 
 
@@ -241,10 +256,14 @@ def work_items(tier, flt):
                               "n": max(2, int((10 if tier == "quick" else 60) * scale)),
                               "cost": {"BinPack": 8, "MMST": 8, "PacMan": 4, "Connector": 3}.get(env, 1)})
     # the auto-reset wrapper stacked over another Wrapper (not only over bare environments)
-    for env, flag in ((("Snake", True), ("Knapsack", False)) if tier == "quick" else
-                      (("Snake", True), ("Knapsack", False), ("Game2048", False), ("Maze", True), ("Connector", True))):
+    stacks = [("Snake", True, True), ("Knapsack", False, True), ("Snake", False, "zeromid"), ("Connector", True, "m2smin")]
+    if tier != "quick":
+        stacks += [("Game2048", False, True), ("Maze", True, True), ("Connector", True, True), ("Maze", False, "zeromid"),
+                   ("Knapsack", True, "zeromid"), ("Connector", False, "m2smin"), ("LevelBasedForaging", True, "m2smin")]
+    for env, flag, kind in stacks:
         if envs.select_envs([env], flt):
-            items.append({"env": env, "entry": SHORT_ENTRY[env], "flag": flag, "stack": True,
+            entry = "g6a3t50rw" if (env == "Connector" and kind == "m2smin") else SHORT_ENTRY[env]
+            items.append({"env": env, "entry": entry, "flag": flag, "stack": kind,
                           "n": max(2, int((6 if tier == "quick" else 30) * scale)), "cost": 1})
     return items
 
@@ -255,12 +274,12 @@ def run_item(item, seed, tier):
     with ctx.guard(env, {"env": env, "entry": entry, "flag": flag, "stage": "construct", "stack": item.get("stack", False)}):
         b = envs.bundle(env, entry)
         if item.get("stack"):
-            b = stacked_bundle(b)
+            b = stacked_bundle(b, item["stack"])
         rig = Rig(b, flag)
 
         def one(key, plan):
             case = {"env": env, "entry": entry, "flag": flag, "key": list(key), "actions": [],
-                    "stack": bool(item.get("stack"))}
+                    "stack": item.get("stack", False)}
 
             def fail(oracle, sig, msg):
                 ctx.fail(oracle, env, sig, f"{msg} [entry={entry} flag={flag} stack={case['stack']} key={list(key)}]", case,
@@ -289,7 +308,7 @@ def replay(case):
     with ctx.guard(env, case):
         b = envs.bundle(env, case["entry"])
         if case.get("stack"):
-            b = stacked_bundle(b)
+            b = stacked_bundle(b, case["stack"])
         rig = Rig(b, case["flag"])
         if case.get("stage") == "construct":
             return []
